@@ -139,14 +139,14 @@ theorem iterRemove_sim (a : Arr) (it : ArrIter) (c : Cursor) (m : Mem) (hinv : a
 /-- `cc_array_iter_add`: inserts directly after the element yielded last and steps over the new
 element; when the insertion is blocked the array *and the cursor* are unchanged (A5) -/
 theorem iterAdd_sim (a : Arr) (it : ArrIter) (c : Cursor) (x : Nat) (m : Mem) (hinv : a.Inv)
-    (hlive : 0 < m.live) (hs : Sim a it c) :
+    (hs : Sim a it c) :
     (((a.iterAdd it x m).1 = .ok ∧ Sim (a.iterAdd it x m).2.1 (a.iterAdd it x m).2.2.1 (c.add x).2 ∧
         GrowFrame a (a.iterAdd it x m).2.1 m) ∨
      (Blocked (a.iterAdd it x m).1 a m ∧ (a.iterAdd it x m).2.1 = a ∧ (a.iterAdd it x m).2.2.1 = it)) ∧
     (a.iterAdd it x m).2.2.2.live = m.live ∧ (a.iterAdd it x m).2.2.2.fault = m.fault := by
   have hle := hs.index_le
   obtain ⟨s1, s2, s3⟩ := hs
-  obtain ⟨sp, sl, sf⟩ := addAt_spec a x it.index m hinv hlive
+  obtain ⟨sp, sl, sf⟩ := addAt_spec a x it.index m hinv
   unfold iterAdd Cursor.add
   rcases sp with ⟨_, sp⟩ | ⟨hgt, _⟩
   · rcases sp with ⟨ok, habs, hg⟩ | ⟨hb, hsame⟩
@@ -454,7 +454,7 @@ theorem addAt_room (a : Arr) (x i : Nat) (m : Mem) (h1 : a.size < a.capacity) (h
 def ensureRoom (a : Arr) (m : Mem) : Stat × Arr × Mem :=
   if a.size = a.capacity then a.expandCapacity m else (.ok, a, m)
 
-theorem ensureRoom_spec (a : Arr) (m : Mem) (hinv : a.Inv) (hlive : 0 < m.live) :
+theorem ensureRoom_spec (a : Arr) (m : Mem) (hinv : a.Inv) :
     (((ensureRoom a m).1 = .ok ∧ (ensureRoom a m).2.1.abs = a.abs ∧ (ensureRoom a m).2.1.size = a.size ∧
         (ensureRoom a m).2.1.size < (ensureRoom a m).2.1.capacity ∧
         (ensureRoom a m).2.1.capacity ≤ (ensureRoom a m).2.1.buf.length ∧
@@ -470,7 +470,7 @@ theorem ensureRoom_spec (a : Arr) (m : Mem) (hinv : a.Inv) (hlive : 0 < m.live) 
   · have he : ensureRoom a m = a.expandCapacity m := by unfold ensureRoom; rw [if_pos hf]
     rw [he]
     by_cases hok : (a.expandCapacity m).1 = .ok
-    · obtain ⟨e1, e2, e3, e4, e5, e6, e7, e8, e9, e10⟩ := expandCapacity_ok a m hinv' hlive hok
+    · obtain ⟨e1, e2, e3, e4, e5, e6, e7, e8, e9, e10⟩ := expandCapacity_ok a m hinv' hok
       exact ⟨Or.inl ⟨hok, e1, by rw [e2, hf], by omega, by omega, e3, Or.inr ⟨hf, e4, e6, e7⟩⟩, e9, e10⟩
     · obtain ⟨e1, e2, e3, e4⟩ := expandCapacity_err a m hok
       exact ⟨Or.inr ⟨hok, e1⟩, e3, e4⟩
@@ -497,7 +497,7 @@ steps over it; when either array cannot make room the call reports `CC_ERR_ALLOC
 and the cursor are unchanged (A8; the first array may have been re-allocated, which changes neither
 its content nor its size), and the ledger is balanced -/
 theorem zipAdd_sim (a1 a2 : Arr) (it : ArrIter) (z : ZipCursor) (x y : Nat) (m : Mem)
-    (hi1 : a1.Inv) (hi2 : a2.Inv) (hlive : 0 < m.live) (hs : ZSim a1 a2 it z) :
+    (hi1 : a1.Inv) (hi2 : a2.Inv) (hs : ZSim a1 a2 it z) :
     (((zipAdd a1 a2 it x y m).1 = .ok ∧
         ZSim (zipAdd a1 a2 it x y m).2.1 (zipAdd a1 a2 it x y m).2.2.1 (zipAdd a1 a2 it x y m).2.2.2.1 (z.add x y).2 ∧
         Grew a1 (zipAdd a1 a2 it x y m).2.1 ∧ Grew a2 (zipAdd a1 a2 it x y m).2.2.1) ∨
@@ -513,9 +513,8 @@ theorem zipAdd_sim (a1 a2 : Arr) (it : ArrIter) (z : ZipCursor) (x y : Nat) (m :
   obtain ⟨l1, l2⟩ := hs.index_le
   obtain ⟨s1, s2, s3, s4, s5⟩ := hs
   rw [zipAdd_eq]
-  obtain ⟨r1, rl1, rf1⟩ := ensureRoom_spec a1 m hi1 hlive
-  have hlive2 : 0 < (ensureRoom a1 m).2.2.live := by omega
-  obtain ⟨r2, rl2, rf2⟩ := ensureRoom_spec a2 (ensureRoom a1 m).2.2 hi2 hlive2
+  obtain ⟨r1, rl1, rf1⟩ := ensureRoom_spec a1 m hi1
+  obtain ⟨r2, rl2, rf2⟩ := ensureRoom_spec a2 (ensureRoom a1 m).2.2 hi2
   rcases r1 with ⟨o1, b1, c1, d1, e1, f1, g1⟩ | ⟨n1, same1⟩
   · simp only [o1, bne_self_eq_false, Bool.false_eq_true, if_false]
     rcases r2 with ⟨o2, b2, c2, d2, e2, f2, g2⟩ | ⟨n2, same2⟩
